@@ -181,7 +181,7 @@ func NewWorld(u *Universe, rng *rand.Rand, n0, extra int) (*World, error) {
 		// NEO3 state validators are 33-byte public keys in hex; the contract treats them as opaque strings.
 		w.SVU = append(w.SVU, u.Relayers[i%len(u.Relayers)].PubHex()[:60]+fmt.Sprintf("%06d", i))
 	}
-	w.ChainIDs = []uint64{0, 1, 2, 3, 4}
+	w.ChainIDs = []uint64{0, 1, 2, 3, 18446744073709551615} // 0 and the largest id are boundary values of the id encoding
 	var vals []*pk.Key
 	for i := 0; i < n0; i++ {
 		vals = append(vals, w.Nodes[i].Key)
@@ -415,8 +415,13 @@ func (w *World) Encode(o *Op) []byte {
 // the caller believes to be the consensus set (used only to build the operator signature).
 func (w *World) Exec(o *Op, consensus []string) *nat.CallRecord {
 	if o.Kind == KAdvance {
+		if o.Delta > 4294967295-w.E.Height {
+			o.Delta = 4294967295 - w.E.Height // block heights are uint32
+		}
 		w.E.Height += o.Delta
-		w.E.Time += 15 * o.Delta
+		if w.E.Time < 4000000000 {
+			w.E.Time += 15 * (o.Delta % 1000)
+		}
 		return &nat.CallRecord{Ok: true, Method: KAdvance}
 	}
 	args := w.Encode(o)
